@@ -15,7 +15,9 @@ from .. import core, nets, observe, tla
 
 LEVEL = "model_checking"
 
-IMPLS = ["auto", "cotengra", "autoray", "recording"]
+# "cotengra+minilib": cotengra's own einsum / tensordot driven with backend="verif_minilib", an array library without
+# einsum / tensordot (see c11.install_minilib): the single-term steps then use cotengra's own diagonal / sum / transpose code
+IMPLS = ["auto", "cotengra", "autoray", "recording", "cotengra+minilib"]
 SORTS = [None, ("flops", True, True), ("size", True, False), ("root", False, True), ("leaves", True, True), "reset",
          ("contracted-before", "flops"), ("contracted-before", "leaves")]
 
@@ -62,12 +64,17 @@ def one_case(run, ct, rng, net, ssa, opt, tlc_value):
             order = orders[opt["order"]]
             rec = observe.Recorder()
             impl = rec.impl() if opt["impl"] == "recording" else opt["impl"]
+            bk = {}
+            if impl == "cotengra+minilib":
+                from . import c11
+                c11.install_minilib()
+                impl, bk = "cotengra", {"backend": "verif_minilib"}
             steps = observe.compiled_program(tree, order=order, prefer_einsum=opt["prefer_einsum"],
                                              implementation=impl)
             arrays = nets.canon_arrays(net)
-            got = tree.contract(arrays, order=order, prefer_einsum=opt["prefer_einsum"], implementation=impl)
+            got = tree.contract(arrays, order=order, prefer_einsum=opt["prefer_einsum"], implementation=impl, **bk)
             arrays2 = nets.rand_int_arrays(net, rng)
-            got2 = tree.contract(arrays2, order=order, prefer_einsum=opt["prefer_einsum"], implementation=impl)
+            got2 = tree.contract(arrays2, order=order, prefer_einsum=opt["prefer_einsum"], implementation=impl, **bk)
     except Exception as e:
         run.violation(f"contract raised {core.exc_text(e)} eq={net.eq()} dims={net.dims} ssa={ssa} opt={opt}",
                       desc, tags=["raised", type(e).__name__])
@@ -106,7 +113,7 @@ def run(run):
     judge(run, cases)
     run.cov["rule"] = ("own network generator (hyper, repeated, dangling, scalar, outer, disconnected, dim-1, non-ascii labels) "
                        "x all binary trees for N<=4 (quick) / N<=5 (thorough), random trees beyond x random option sets "
-                       "(7 traversal orders, prefer_einsum, 4 implementations, 6 index-order states); distinct by "
+                       "(7 traversal orders, prefer_einsum, 5 implementations (incl. cotengra's own routines on a backend without einsum / tensordot), 6 index-order states); distinct by "
                        "(network, tree, options); every case: program validated by TLC + exact numeric comparison on 2 array sets")
     run.assumptions += ["numpy integer-valued float64 arithmetic is exact below 2^53",
                         "harness evaluator refeval agrees with Network!Einsum (cross-checked by TLC on the sampled cases of this run)"]
